@@ -17,7 +17,8 @@ A job:
      {'op': 'junk'}                                        stale/junk files added to every directory of the existing workspace
      {'op': 'cwd_tmp', 'dir': d}                           the run happens with cwd, TMPDIR and HOME = d (which holds a stale
                                                            ./lian_workspace of another project)
-  cwd (optional), timeout (s).
+  cwd (optional: the child changes into it first, a relative `workspace` is relative to it), symlink (optional
+  [link, target]: created before the run, `workspace` then goes through the link), timeout (s).
 Result per job: {id, status, wall, value | error}, value = {outcome, snapshot, src, ws, hashseed, lock_wait, pid}."""
 import json
 import os
@@ -101,11 +102,36 @@ def run_job(job):
     fcntl.flock(lockf, fcntl.LOCK_EX)
     lock_wait = time.time() - t1
     try:
+        cwd = job.get("cwd")
+        if cwd:                                   # a relative -w is relative to this directory
+            os.makedirs(cwd, exist_ok=True)
+            os.chdir(cwd)
+        if job.get("symlink"):                    # [link, target]: the workspace is addressed through a symbolic link
+            link, target = job["symlink"]
+            if os.path.islink(link):
+                os.unlink(link)
+            shutil.rmtree(target, ignore_errors=True)
+            os.makedirs(target)
+            os.makedirs(os.path.dirname(link), exist_ok=True)
+            os.symlink(target, link)
         if os.path.lexists(ws_arg):
             shutil.rmtree(ws_arg)
-        os.makedirs(os.path.dirname(ws_arg.rstrip("/")), exist_ok=True)
-        cwd = job.get("cwd")
+        if os.path.dirname(ws_arg.rstrip("/")):
+            os.makedirs(os.path.dirname(ws_arg.rstrip("/")), exist_ok=True)
         env_extra = {}
+        # what is given to lian (harness self-check: both runs of a pair must be handed the same bytes), taken before the
+        # run (the workspace may lie inside the input); lian's own copy under <ws>/src is NOT used for this: what ends up
+        # there is lian's doing (e.g. stale files after --force)
+        src = {}
+        for ip in job["in_paths"]:
+            if os.path.isfile(ip):
+                src[os.path.basename(ip)] = artefacts.sha_file(ip)
+            else:
+                for r, dn, fn in os.walk(ip):
+                    for n in fn:
+                        q = os.path.join(r, n)
+                        if os.path.isfile(q) and not os.path.islink(q):
+                            src[os.path.relpath(q, os.path.dirname(ip.rstrip("/")))] = artefacts.sha_file(q)
         for pre in job.get("pre", []):
             op = pre["op"]
             if op == "run":
@@ -177,18 +203,6 @@ def run_job(job):
             raise ValueError(job["kind"])
         t_run = time.time() - t0 - lock_wait
         snap = artefacts.snapshot(ws, job.get("in_roots", ())) if os.path.isdir(ws) else {}
-        # what was given to lian (harness self-check: both runs of a pair must have been handed the same bytes); lian's own
-        # copy under <ws>/src is NOT used for this: what ends up there is lian's doing (e.g. stale files after --force)
-        src = {}
-        for ip in job["in_paths"]:
-            if os.path.isfile(ip):
-                src[os.path.basename(ip)] = artefacts.sha_file(ip)
-            else:
-                for r, dn, fn in os.walk(ip):
-                    for n in fn:
-                        q = os.path.join(r, n)
-                        if os.path.isfile(q) and not os.path.islink(q):
-                            src[os.path.relpath(q, os.path.dirname(ip.rstrip("/")))] = artefacts.sha_file(q)
         top = sorted(os.listdir(ws)) if os.path.isdir(ws) else []
         probe_hits = artefacts.field_group_hits(ws, job["probe_fields"]) if job.get("probe_fields") and os.path.isdir(ws) else None
         keep = job.get("keep")
@@ -203,6 +217,7 @@ def run_job(job):
                     except OSError:
                         shutil.move(s, os.path.join(keep, d))
         return {"outcome": outcome, "snapshot": snap, "src": src, "top": top, "ws": ws, "pre": pre_log, "probe_hits": probe_hits,
+                "subst": [list(x) for x in artefacts.subst_for(ws, job.get("in_roots", ()))],
                 "hashseed": os.environ.get("PYTHONHASHSEED"), "lock_wait": round(lock_wait, 2),
                 "run_s": round(t_run, 2), "pid": os.getpid()}
     finally:
